@@ -150,6 +150,12 @@ fn free_tcp_port() -> u16 {
 impl Srv {
     /// Must be called on a named thread (the subject's constructors require it).
     pub fn new(cfg: &SrvCfg) -> Result<Srv, String> {
+        Srv::new_with_queue(cfg, Arc::new(StatsQueue::new(4)))
+    }
+
+    /// A Server that hands its per-client statistics to the given (possibly shared) queue, as the
+    /// workers of one process do.
+    pub fn new_with_queue(cfg: &SrvCfg, queue: Arc<StatsQueue>) -> Result<Srv, String> {
         init();
         let mut last = String::new();
         for _attempt in 0..5 {
@@ -167,7 +173,7 @@ impl Srv {
             mc.num_workers = 1;
             let hp = if cfg.health { Some(free_tcp_port()) } else { None };
             mc.health_check_port = hp;
-            let queue = Arc::new(StatsQueue::new(4));
+            let queue = queue.clone();
             let q2 = queue.clone();
             match catch(move || Server::new(&mc, sock, q2)) {
                 Ok(server) => {
